@@ -203,9 +203,16 @@ func SearchSessionC11(t *tape.Tape) *core.RunResult {
 				at := 1 + t.Choose(max(probe.polls, 1))
 				res.Tracef("search depth=%d halted at poll %d/%d on %q", d, at, probe.polls, gs.g.FEN())
 				res.Fault("halt@poll")
-				rec.verify = func() bool { return false }
-				ab.Search(newCountingCtx(ctx, at), &search.Context{TT: rec}, gs.b, d)
+				// every exact store made after the halt is verified too: "every exact entry the search stores is
+				// the true search value" has no exception for a search that is being abandoned
+				cc := newCountingCtx(ctx, at)
+				rec.verify, rec.onlyAfter = nil, cc
+				ab.Search(cc, &search.Context{TT: rec}, gs.b, d)
+				rec.onlyAfter = nil
 				rec.verify = func() bool { cnt++; return cnt%sample == 0 }
+				if len(res.Violations) > 0 {
+					goto done
+				}
 				continue
 			}
 			res.Tracef("search depth=%d (%s) on %q", d, cfg, gs.g.FEN())
